@@ -76,7 +76,7 @@ class Weighting(object):
         arrays may be compared entry-wise. That is the task of the
         `equiv` method.
         """
-        return (isinstance(other, Weighting) and
+        return (type(other) is type(self) and
                 self.impl == other.impl and
                 self.exponent == other.exponent)
 
